@@ -107,7 +107,15 @@ def conv_bool(s):
 
 
 def pure_int(v):
-    return 7 * len(v) + (ord(v[0]) if v else 0)
+    """what the executor's value-parsing callback makes of a token for an integer option: a full long, for tokens of
+    some lengths beyond 32 bits and negative (mirrors pure_int() in engine/cfgx.cc)"""
+    b0 = ord(v[0]) if v else 0
+    r = 7 * len(v) + b0
+    if len(v) % 3 == 2:
+        r += (b0 + 1) << 33
+    if len(v) % 5 == 4:
+        r = -r
+    return r
 
 
 # --------------------------------------------------------------------------------------------
